@@ -701,6 +701,31 @@ func bytesObs(fn string, s, t []byte, r int64) string {
 	return ""
 }
 
+// toClass forces a generated string into the class of its stream: in the
+// ASCII stream a non-ASCII code point (introduced by re-casing, e.g. U+017F
+// for s) is replaced by an ASCII member of its orbit, or dropped
+func toClass(stream int, b []byte) []byte {
+	if stream != streamASCII {
+		return b
+	}
+	var o []byte
+	for i := 0; i < len(b); {
+		r, w := utf8.DecodeRune(b[i:])
+		if r < 0x80 {
+			o = append(o, byte(r))
+		} else {
+			for _, m := range orbitOf(r) {
+				if m < 0x80 {
+					o = append(o, byte(m))
+					break
+				}
+			}
+		}
+		i += w
+	}
+	return o
+}
+
 func lowerASCII(b []byte) []byte {
 	o := make([]byte, len(b))
 	for i, c := range b {
@@ -824,19 +849,23 @@ func init() {
 			lower := st == streamASCII
 			for i := 0; i < n; i++ {
 				s, t := x.g.pair(st)
+				s, t = toClass(st, s), toClass(st, t)
 				for _, fn := range allSS {
 					x.dropIn(fn, s, t, 0, lower)
 				}
 				s, t = x.affixPair(st)
+				s, t = toClass(st, s), toClass(st, t)
 				for _, fn := range allSS {
 					x.dropIn(fn, s, t, 0, lower)
 				}
 				s, t = x.g.anyCase(st)
+				s, t = toClass(st, s), toClass(st, t)
 				for _, fn := range []string{"IndexAny", "LastIndexAny", "ContainsAny"} {
 					x.dropIn(fn, s, t, 0, lower)
 				}
 				// rune and byte arguments from the same class
 				s, _ = x.g.pair(st)
+				s = toClass(st, s)
 				var r int64
 				if len(s) > 0 && x.g.chance(0.7) {
 					sg := segsOf(s)
